@@ -230,10 +230,10 @@ mutual
     | .setReg r v, h => by simp only [genStmt, nr_ins]; exact nrC_genRv v _ h.2
     | .units m, _ => by simp only [genStmt, nr_ins]; rfl
     | .actAll k, _ => by cases k <;> (simp only [genStmt, nr_ins]; rfl)
-    | .setDefault, _ => by simp only [genStmt, nr_ins]; rfl
-    | .action k ops, h => by
+    | .setDefault w, _ => by cases w <;> (simp only [genStmt, nr_ins]; rfl)
+    | .action k w ops, h => by
       have := nr_genOperands k ops h
-      cases k <;> (simp only [genStmt, nr_append, nr_ins, this, Bool.and_true]; rfl)
+      cases k <;> cases w <;> (simp only [genStmt, nr_append, nr_ins, this, Bool.and_true]; rfl)
     | .get name, h => by
       simp only [genStmt, nr_ins, List.all_append, nrC_genRv name _ h, Bool.true_and]; rfl
     | .wait, _ => by simp only [genStmt, nr_ins]; rfl
@@ -406,7 +406,7 @@ mutual
       | repeat_ hd body =>
         have hb := collect_frag body h.1.2
         simp only [Sem.collect, hb, hr, List.append_nil]
-      | action k ops =>
+      | action k w ops =>
         have ho := collectOps_frag ops h.1
         simp only [Sem.collect, ho, hr, List.append_nil]
       | _ => simp only [Sem.collect, hr]
